@@ -9206,7 +9206,12 @@ class SVG(Group):
                 if SVG_NAME_TAG == tag:
                     # The ordering for transformations on the SVG object are:
                     # explicit transform, parent transforms, attribute transforms, viewport transforms
-                    s = SVG(values)
+                    try:
+                        s = SVG(values)
+                    except ValueError:
+                        if on_error == "raise":
+                            raise
+                        continue  # The element's own attributes are in error: it is skipped.
 
                     if width is None:
                         # If a dim was not provided but a viewbox was, use the viewbox dim as physical size, else 1000
@@ -9242,13 +9247,23 @@ class SVG(Group):
                         context.append(s)
                     context = s
                 elif SVG_TAG_GROUP == tag:
-                    s = Group(values)
+                    try:
+                        s = Group(values)
+                    except ValueError:
+                        if on_error == "raise":
+                            raise
+                        continue  # The element's own attributes are in error: it is skipped.
                     if context is not None:
                         context.append(s)
                     context = s
                     s.render(ppi=ppi, width=width, height=height)
                 elif SVG_TAG_DEFS == tag:
-                    s = Group(values)
+                    try:
+                        s = Group(values)
+                    except ValueError:
+                        if on_error == "raise":
+                            raise
+                        continue  # The element's own attributes are in error: it is skipped.
                     context = s  # Non-Rendered
                     s.render(ppi=ppi, width=width, height=height)
                 elif SVG_TAG_CLIPPATH == tag:
@@ -9257,7 +9272,12 @@ class SVG(Group):
                     s.render(ppi=ppi, width=width, height=height)
                     clip += 1
                 elif SVG_TAG_USE == tag:
-                    s = Use(values)
+                    try:
+                        s = Use(values)
+                    except ValueError:
+                        if on_error == "raise":
+                            raise
+                        continue  # The element's own attributes are in error: it is skipped.
                     if SVG_ATTR_TRANSFORM in s.values:
                         # Update value in case x or y applied.
                         values[SVG_ATTR_TRANSFORM] = s.values[SVG_ATTR_TRANSFORM]
@@ -9276,7 +9296,12 @@ class SVG(Group):
                     if SVG_ATTR_ID in attributes and root is not None and use == 1:
                         root.objects[attributes[SVG_ATTR_ID]] = s
                 elif SVG_TAG_PATTERN == tag:
-                    s = Pattern(values)
+                    try:
+                        s = Pattern(values)
+                    except ValueError:
+                        if on_error == "raise":
+                            raise
+                        continue  # The element's own attributes are in error: it is skipped.
                     context = s  # Non-rendered
                     s.render(ppi=ppi, width=width, height=height)
                 elif tag in (
@@ -9387,12 +9412,18 @@ class SVG(Group):
                     if SVG_ATTR_ID in attributes and root is not None and use == 0:
                         root.objects[attributes[SVG_ATTR_ID]] = s
                 if tag in (SVG_TAG_TEXT, SVG_TAG_TSPAN):
-                    s = Text(values, text=elem.text)
-                    s.render(ppi=ppi, width=width, height=height)
-                    if reify:
-                        s.reify()
-                    if context is not None:
-                        context.append(s)
+                    try:
+                        s = Text(values, text=elem.text)
+                    except ValueError:
+                        if on_error == "raise":
+                            raise
+                        s = None  # The element's own attributes are in error: it is skipped.
+                    if s is not None:
+                        s.render(ppi=ppi, width=width, height=height)
+                        if reify:
+                            s.reify()
+                        if context is not None:
+                            context.append(s)
                 elif SVG_TAG_DESC == tag:
                     s = Desc(values, desc=elem.text)
                     if context is not None:
